@@ -12,7 +12,7 @@ struct PdoCfgRun : NodeEnv {
     PdoCfgRun(const Plan &p, Cov &c, bool vb) : NodeEnv(p, c, vb) {}
     const OClass *find(uint16_t idx, uint8_t sub) { for (auto &o : oc) if (o.idx == idx && o.sub == sub && o.exists) return &o; return nullptr; }
     void build() {
-        nodeId = 1; freq = 1000; nR = std::min(2, CO_RPDO_N); nT = std::min(2, CO_TPDO_N);
+        nodeId = 1; freq = 1000; nR = std::min(3, CO_RPDO_N); nT = std::min(3, CO_TPDO_N);   // up to three channels: the last TPDO channel of the small build (CO_RPDO_N = 2 < CO_TPDO_N = 3) is one of them
         add_mandatory(specs, 1);
         add_typed(specs, T_SYNCID, 0x1005, 0, CO_OBJ_____RW, 0x80);
         // object classes
@@ -150,11 +150,11 @@ struct PdoCfgRun : NodeEnv {
 
 Plan gen_pdocfg(Rng &r, bool thorough) {
     Plan p; if (r.chance(1, 6)) { p.cfg["poolfull"] = 1; p.cfg["tev"] = r.pick<int64_t>({20, 50}); }
-    for (int n = 0; n < 2; n++) { p.cfg["rvalid" + std::to_string(n)] = r.below(2); p.cfg["tvalid" + std::to_string(n)] = r.below(2); p.cfg["rmap" + std::to_string(n)] = r.chance(1, 5) ? r.range(4, 5) : r.below(4); p.cfg["tmap" + std::to_string(n)] = r.below(4); p.cfg["rtype" + std::to_string(n)] = r.pick<int64_t>({254, 255, 1, 240, 254}); p.cfg["ttype" + std::to_string(n)] = r.pick<int64_t>({254, 255, 1, 254, 255, 1, 240, 3}); }
+    for (int n = 0; n < 3; n++) { p.cfg["rvalid" + std::to_string(n)] = r.below(2); p.cfg["tvalid" + std::to_string(n)] = r.below(2); p.cfg["rmap" + std::to_string(n)] = r.chance(1, 5) ? r.range(4, 5) : r.below(4); p.cfg["tmap" + std::to_string(n)] = r.below(4); p.cfg["rtype" + std::to_string(n)] = r.pick<int64_t>({254, 255, 1, 240, 254}); p.cfg["ttype" + std::to_string(n)] = r.pick<int64_t>({254, 255, 1, 254, 255, 1, 240, 3}); }
     auto link = [&]() -> int64_t { static const uint32_t targets[] = {0x210001, 0x210002, 0x210003, 0x210004, 0x210005, 0x210006, 0x210007, 0x210008, 0x210009, 0x210020, 0x2F0001, 0x100000, 0x000500}; static const uint8_t widths[] = {1, 2, 4, 4, 1, 2, 1, 4, 1, 1, 1, 4, 1}; uint32_t i = r.below(13); uint32_t bits = r.chance(3, 4) ? widths[i] * 8u : r.pick<uint32_t>({8, 16, 24, 32, 64, 0, 1, 40}); return (int64_t)(targets[i] << 8 | bits); };
     int n = (int)r.range(4, thorough ? 60 : 30);
     for (int i = 0; i < n; i++) {
-        int c = (int)r.below(20); int64_t tp = r.below(2), ch = r.below(2);
+        int c = (int)r.below(20); int64_t tp = r.below(2), ch = r.below(3);
         if (c < 3) p.ops.push_back(Op("nmt", {r.pick<int64_t>({1, 1, 1, 2, 128})}));
         else if (c < 7) { int64_t base = (tp ? 0x40000180 : 0x200) + 0x100 * ch + 1; int64_t v = r.pick<int64_t>({base, base | 0x80000000ll, base, base | 0x80000000ll, (base + 0x10) | 0x80000000ll, base + 0x10, base | 0x20000000, base & ~0x40000000ll, (base | 0x80000000ll) & ~0x40000000ll, (base ^ 0x100) | 0x80000000ll}); p.ops.push_back(Op("w", {tp, ch, 9, v})); }
         else if (c < 9) p.ops.push_back(Op("w", {tp, ch, 10, r.pick<int64_t>({1, 240, 254, 255, 254, 0, 241, 253, 2})}));
@@ -164,14 +164,14 @@ Plan gen_pdocfg(Rng &r, bool thorough) {
     }
     // a whole re-mapping with e entries of one width, then count := e (or a neighbour): sums of 8..256 bits, i.e. below, at and far above the 64 bit limit
     if (r.chance(1, 3)) {
-        int64_t tp = r.below(2), ch = r.below(2); int64_t base = (tp ? 0x40000180 : 0x200) + 0x100 * ch + 1; int e = (int)r.range(2, 8); uint32_t wbits = r.pick<uint32_t>({8, 16, 32, 32});
+        int64_t tp = r.below(2), ch = r.below(3); int64_t base = (tp ? 0x40000180 : 0x200) + 0x100 * ch + 1; int e = (int)r.range(2, 8); uint32_t wbits = r.pick<uint32_t>({8, 16, 32, 32});
         static const uint32_t t8[] = {0x210001, 0x210005, 0x210007, 0x210009}, t16[] = {0x210002, 0x210006}, t32[] = {0x210003, 0x210004, 0x210008};
         p.ops.push_back(Op("w", {tp, ch, 9, base | 0x80000000ll})); p.ops.push_back(Op("w", {tp, ch, 0, 0}));
         for (int i = 1; i <= e; i++) { uint32_t t = wbits == 8 ? t8[r.below(4)] : wbits == 16 ? t16[r.below(2)] : t32[r.below(3)]; p.ops.push_back(Op("w", {tp, ch, i, (int64_t)(t << 8 | wbits)})); }
         p.ops.push_back(Op("w", {tp, ch, 0, r.chance(3, 4) ? e : (int64_t)r.range(1, 8)})); p.ops.push_back(Op("w", {tp, ch, 9, base})); p.ops.push_back(Op("nmt", {1}));
     }
     // the canonical re-mapping sequence, somewhere at the end (must always succeed)
-    if (r.chance(1, 2)) { int64_t tp = r.below(2), ch = r.below(2); int64_t base = (tp ? 0x40000180 : 0x200) + 0x100 * ch + 1; p.ops.push_back(Op("w", {tp, ch, 9, base | 0x80000000ll})); p.ops.push_back(Op("w", {tp, ch, 0, 0})); p.ops.push_back(Op("w", {tp, ch, 1, 0x21000108})); p.ops.push_back(Op("w", {tp, ch, 2, 0x21000320})); p.ops.push_back(Op("w", {tp, ch, 0, 2})); p.ops.push_back(Op("w", {tp, ch, 10, 254})); p.ops.push_back(Op("w", {tp, ch, 9, base})); p.ops.push_back(Op("nmt", {1})); }
+    if (r.chance(1, 2)) { int64_t tp = r.below(2), ch = r.below(3); int64_t base = (tp ? 0x40000180 : 0x200) + 0x100 * ch + 1; p.ops.push_back(Op("w", {tp, ch, 9, base | 0x80000000ll})); p.ops.push_back(Op("w", {tp, ch, 0, 0})); p.ops.push_back(Op("w", {tp, ch, 1, 0x21000108})); p.ops.push_back(Op("w", {tp, ch, 2, 0x21000320})); p.ops.push_back(Op("w", {tp, ch, 0, 2})); p.ops.push_back(Op("w", {tp, ch, 10, 254})); p.ops.push_back(Op("w", {tp, ch, 9, base})); p.ops.push_back(Op("nmt", {1})); }
     return p;
 }
 Reg r14({"pdocfg", "C14", gen_pdocfg, [](const Plan &p, Cov &c, bool vb) { PdoCfgRun x(p, c, vb); return x.run(); }, nullptr, nullptr});
